@@ -245,6 +245,33 @@ func genLadder(t *rapid.T) Case {
 	if gen.Chance(t, 1, 3, "huge") {
 		nx = 10001 + rapid.IntRange(0, 2500).Draw(t, "hugePlus")
 	}
+	if rapid.Bool().Draw(t, "wideConflict") {
+		// two clauses over all of Y that differ by the sign of b, Y tied to a master variable that a helper forbids, and
+		// variable 1 forbidden too: satisfiable (a true, the rest false), and the first conflict collects |Y| literals
+		// of lower levels
+		nbY := nx
+		const z, b, a, w, firstY = 1, 2, 3, 4, 5
+		n := firstY + nbY - 1
+		master := n
+		if rapid.Bool().Draw(t, "masterFirst") {
+			master = firstY
+		}
+		wide1, wide2 := make([]int, 0, nbY+2), make([]int, 0, nbY+2)
+		for y := firstY; y <= n; y++ {
+			wide1, wide2 = append(wide1, y), append(wide2, y)
+		}
+		cls := [][]int{append(wide1, a, b), append(wide2, a, -b)}
+		for y := firstY; y <= n; y++ {
+			if y != master {
+				cls = append(cls, []int{master, -y})
+			}
+		}
+		cls = append(cls, []int{-master, w}, []int{-master, -w})
+		if rapid.Bool().Draw(t, "forbidFirst") {
+			cls = append(cls, []int{-z, w}, []int{-z, -w})
+		}
+		return Case{N: n, Clauses: cls, Family: "wide-conflict", Known: "sat", Entry: rapid.SampledFrom([]string{"slicenb", "cnf", "slice"}).Draw(t, "entry")}
+	}
 	var c Case
 	var tail string
 	c.N, c.Clauses, tail = gen.Ladder(t, nx)
@@ -514,7 +541,7 @@ func genPar(t *rapid.T) ParCase {
 
 func init() {
 	vf.Register(vf.Sub[Case]{Name: "ladders", Quick: 12, Thorough: 60, Gen: genLadder, Check: check, Floor: 0.5,
-		Rule: "ladder formulas (gen.Ladder: a clause over 40..640 or 10 001..12 500 variables split on a helper, followed by an implication chain or a gadget) whose first conflicts collect that many literals; verdict known by construction (the other oracles do not reach these sizes), models evaluated; non-trivial as above"})
+		Rule: "ladder formulas (gen.Ladder: a clause over 40..640 or 10 001..12 500 variables split on a helper, followed by an implication chain or a gadget; or two clauses over all of a set Y tied to a master variable) whose first conflicts collect that many literals; verdict known by construction (the other oracles do not reach these sizes), models evaluated; non-trivial as above"})
 }
 
 func init() {
